@@ -43,7 +43,7 @@ func p(t int64, v float64) core.Pt { return core.Pt{T: t, V: core.F(v)} }
 // C02: instant-vector selection
 
 func c02Contexts() []string {
-	return []string{`a`, `a offset 30s`, `a offset -30s`, `a @ 600.000`, `a @ start()`, `a @ end()`, `-a`, `a + 0`, `a @ 600.000 offset 45s`,
+	return []string{`a`, `a offset 30s`, `a offset -30s`, `a @ 600.000`, `a @ 0.000`, `a @ start()`, `a @ end()`, `-a`, `a + 0`, `a @ 600.000 offset 45s`,
 		// two selectors with the same matchers in one query share pooled selects
 		`a @ end() + a`, `a + a @ end()`, `a @ start() + a`, `a offset 30s + a`, `a @ 600.000 + a`,
 		// the same selection when the query is answered by the fallback path (the
@@ -692,6 +692,9 @@ func c06Data() []core.SeriesSpec {
 		gen.Regular(`h_bucket{l="3",le="+Inf"}`, 0, 30000, 110, 9, 1),
 		gen.Regular(`h_bucket{l="3",le="1"}`, 0, 30000, 110, 3, 1),
 		gen.Regular(`h_bucket{l="3",le="1.0"}`, 0, 30000, 110, 3, 1), // duplicate le value
+		// two labels that sort after le
+		gen.Regular(`h_bucket{l="4",le="1",pod="p",zone="z"}`, 0, 30000, 110, 2, 1),
+		gen.Regular(`h_bucket{l="4",le="+Inf",pod="p",zone="z"}`, 0, 30000, 110, 5, 2),
 	)
 	return out
 }
